@@ -39,10 +39,13 @@ try:
         if os.path.exists(f'{mutdir}/demo.php'):
             p = sh(f'timeout -s KILL 120 ./zy-bin {mutdir}/demo.php', cwd=wt)
             return p.stdout + (f'\n[exit {p.returncode}]' if p.returncode else '')
-        gt = glob.glob(f'{mutdir}/*_test.go')
-        if gt:
-            # the notes say where the test belongs; default: copy next to the package named in its first line comment
-            return None
+        for g in ('demo.go', 'demo_main.go'):
+            if os.path.exists(f'{mutdir}/{g}'):
+                os.makedirs(f'{wt}/zz_demo', exist_ok=True)
+                shutil.copy(f'{mutdir}/{g}', f'{wt}/zz_demo/main.go')
+                p = sh('timeout -s KILL 600 go run ./zz_demo', cwd=wt)
+                shutil.rmtree(f'{wt}/zz_demo', ignore_errors=True)
+                return p.stdout + (f'\n[exit {p.returncode}]' if p.returncode else '')
         return None
     b = build('')
     if b.returncode: sys.exit('pristine build failed: ' + b.stderr[-500:])
